@@ -342,4 +342,111 @@ theorem expected_contents (boundary : Bytes) (parts : List Part) (epi : Bytes) (
   rw [hl] at this
   exact this
 
+/-! ### the scanner and `bytes.find` -/
+
+/-- `find`: the result is the first position where the pattern starts -/
+theorem findSub_spec (pat : Bytes) : ∀ (s : Bytes),
+    match findSub pat s with
+    | some i => pat <+: s.drop i ∧ i + pat.length ≤ s.length ∧ ∀ i', i' < i → ¬ pat <+: s.drop i'
+    | none => ∀ i', i' ≤ s.length → ¬ pat <+: s.drop i' := by
+  intro s
+  induction s with
+  | nil =>
+    unfold findSub
+    by_cases hp : pat.isEmpty = true
+    · rw [if_pos hp]
+      have : pat = [] := List.isEmpty_iff.mp hp
+      subst this
+      exact ⟨by simp, by simp, fun i' h => by omega⟩
+    · rw [if_neg hp]
+      intro i' _ hpre
+      simp only [List.drop_nil] at hpre
+      have := List.prefix_nil.mp hpre
+      exact hp (by simp [this])
+  | cons c cs ih =>
+    unfold findSub
+    by_cases hp : pat.isPrefixOf (c :: cs) = true
+    · rw [if_pos hp]
+      have hpre := List.isPrefixOf_iff_prefix.mp hp
+      exact ⟨by simpa using hpre, by simpa using hpre.length_le, fun i' h => by omega⟩
+    · rw [if_neg hp]
+      have hnp : ¬ pat <+: c :: cs := fun h => hp (List.isPrefixOf_iff_prefix.mpr h)
+      cases hf : findSub pat cs with
+      | none =>
+        rw [hf] at ih
+        simp only [Option.map_none]
+        intro i' hi'
+        cases i' with
+        | zero => simpa using hnp
+        | succ j => simpa using ih j (by simp at hi'; omega)
+      | some i =>
+        rw [hf] at ih
+        simp only [Option.map_some]
+        obtain ⟨h1, h2, h3⟩ := ih
+        refine ⟨by simpa using h1, by simp; omega, fun i' hi' => ?_⟩
+        cases i' with
+        | zero => simpa using hnp
+        | succ j => simpa using h3 j (by omega)
+
+/-- the byte-at-a-time scanner started with nothing matched finds exactly what `bytes.find` finds -/
+theorem scan_eq_find {tok : Bytes} (hnb : NB tok) (s : Bytes) :
+    match findSub tok s with
+    | some i => scan tok 0 s = .found (i + tok.length)
+    | none => ∃ m', scan tok 0 s = .more m' := by
+  have hl := nb_length_pos hnb
+  have hspec := findSub_spec tok s
+  cases hf : findSub tok s with
+  | some i =>
+    rw [hf] at hspec
+    obtain ⟨h1, h2, h3⟩ := hspec
+    simp only
+    apply scan_eq_found hnb s [] 0 (i + tok.length) hl (pmMax_nil hnb) h2
+    · rw [List.nil_append]
+      obtain ⟨t, ht⟩ := h1
+      have : s = s.take i ++ (tok ++ t) := by rw [ht, List.take_append_drop]
+      rw [this, ← List.append_assoc, List.take_append_of_le_length (by simp [List.length_take]; omega),
+        List.take_of_length_le (by simp [List.length_take]; omega)]
+      exact List.suffix_append _ _
+    · intro j hj hs
+      rw [List.nil_append] at hs
+      -- an occurrence ending at j < i + tlen starts at j - tlen < i
+      have hjl : tok.length ≤ (s.take j).length := hs.length_le
+      have hjs : j ≤ s.length ∨ s.length < j := by omega
+      have hlen : (s.take j).length = min j s.length := List.length_take
+      obtain ⟨pre, hpre⟩ := hs
+      have hstart : pre.length + tok.length = (s.take j).length := by rw [← hpre]; simp
+      apply h3 pre.length (by omega)
+      have : s = pre ++ tok ++ s.drop j := by rw [hpre, List.take_append_drop]
+      refine ⟨s.drop j, ?_⟩
+      conv => rhs; rw [this]
+      rw [List.append_assoc, List.drop_left']
+      rfl
+  | none =>
+    rw [hf] at hspec
+    simp only
+    have := scan_spec hnb s [] 0 hl (pmMax_nil hnb)
+    cases hsc : scan tok 0 s with
+    | more m' => exact ⟨m', rfl⟩
+    | found j =>
+      rw [hsc] at this
+      obtain ⟨_, hj, hs, _⟩ := this
+      rw [List.nil_append] at hs
+      obtain ⟨pre, hpre⟩ := hs
+      exfalso
+      apply hspec pre.length
+      · have := congrArg List.length hpre
+        simp [List.length_take] at this; omega
+      · have : s = pre ++ tok ++ s.drop j := by rw [hpre, List.take_append_drop]
+        refine ⟨s.drop j, ?_⟩
+        conv => rhs; rw [this]
+        rw [List.append_assoc, List.drop_left']
+        rfl
+
+/-- cutting at positions does not lose or reorder bytes -/
+theorem cutAt_flatten : ∀ (cuts : List Nat) (body : Bytes) (off : Nat), (cutAt body off cuts).flatten = body := by
+  intro cuts
+  induction cuts with
+  | nil => intro body off; simp [cutAt]
+  | cons c cs ih => intro body off; simp [cutAt, ih]
+
 end Ombott.Multipart
